@@ -117,9 +117,17 @@ class LiftConstantsToInitializersPass(ir.passes.InPlacePass):
             tensor = ir.tensor(
                 attr_value.as_floats(), dtype=ir.DataType.FLOAT, name=initializer_name
             )
-        elif attr_name in ("value_string", "value_strings"):
+        elif attr_name == "value_string":
+            # Use an object array: a fixed-width ``np.bytes_`` array cannot hold non-ASCII
+            # text and silently drops trailing NUL bytes.
             tensor = ir.StringTensor(
-                np.array(attr_value.value, dtype=np.bytes_), name=initializer_name
+                np.array(attr_value.as_string().encode("utf-8"), dtype=object),
+                name=initializer_name,
+            )
+        elif attr_name == "value_strings":
+            tensor = ir.StringTensor(
+                np.array([s.encode("utf-8") for s in attr_value.as_strings()], dtype=object),
+                name=initializer_name,
             )
         else:
             raise ValueError(
